@@ -1,1 +1,132 @@
-(** Props/C01.v — placeholder, to be written. *)
+(** Props/C01.v — step-groups run in order, fail fast, route to success/failure handlers.
+    [rg] = the nested run_step_groups (re-entered by call/jump), [rp] = the nested pipeline
+    run (pype): every theorem holds for ALL behaviours of nested calls, all step lists, all
+    states — i.e. for every pipeline definition and every nesting depth. *)
+From PV Require Import Engine EngineProofs.
+Open Scope string_scope.
+Notation RG := (list val -> option string -> option string -> st -> R).
+Notation RP := (string -> option (list val) -> option string -> option string -> st -> R).
+
+(** steps execute in declaration order: running [a ++ b] is running [a], then — only if [a]
+    completed normally — [b] on the state [a] left *)
+Theorem C01_steps_in_order : forall (rg : RG) (rp : RP) (a b : list step) (s : st),
+  run_steps rg rp (a ++ b) s = andthen (run_steps rg rp a s) (run_steps rg rp b).
+Proof. exact run_steps_app. Qed.
+Print Assumptions C01_steps_in_order.
+
+(** fail fast inside a group: once a step ends abnormally nothing after it matters *)
+Theorem C01_step_failfast : forall (rg : RG) (rp : RP) pre sp post s s1 o s2,
+  run_steps rg rp pre s = (OOk, s1) -> run_step rg rp sp s1 = (o, s2) -> o <> OOk ->
+  run_steps rg rp (pre ++ sp :: post) s = (o, s2).
+Proof. exact run_steps_stops_at. Qed.
+Print Assumptions C01_step_failfast.
+
+(** groups run in order, group after group *)
+Theorem C01_groups_in_order : forall lib (rg : RG) (rp : RP) (a b : list string) s,
+  run_group_seq lib rg rp (a ++ b) s
+  = andthen (run_group_seq lib rg rp a s) (run_group_seq lib rg rp b).
+Proof. exact run_group_seq_app. Qed.
+Print Assumptions C01_groups_in_order.
+
+Theorem C01_group_failfast : forall lib (rg : RG) (rp : RP) pre g post s s1 o s2,
+  run_group_seq lib rg rp pre s = (OOk, s1) -> run_group lib rg rp g false s1 = (o, s2) ->
+  o <> OOk -> run_group_seq lib rg rp (pre ++ g :: post) s = (o, s2).
+Proof. exact run_group_seq_stops_at. Qed.
+Print Assumptions C01_group_failfast.
+
+(** the success group runs once, after ALL requested groups completed ... *)
+Theorem C01_success_after_all : forall lib (rg : RG) (rp : RP) names sg s s1,
+  run_group_seq lib rg rp names s = (OOk, s1) -> sg <> "" ->
+  main_part lib rg rp names (Some sg) s = run_group lib rg rp sg false s1.
+Proof. exact main_part_all_ok. Qed.
+Print Assumptions C01_success_after_all.
+
+(** ... and only then: if a group ended abnormally the success group is irrelevant *)
+Theorem C01_success_only_then : forall lib (rg : RG) (rp : RP) names success s o s1,
+  run_group_seq lib rg rp names s = (o, s1) -> o <> OOk ->
+  main_part lib rg rp names success s = (o, s1).
+Proof. exact main_part_not_ok. Qed.
+Print Assumptions C01_success_only_then.
+
+(** an error escaped: the failure group runs (once, on the state the error left); the caller
+    receives the ORIGINAL error (same identity [e]) whatever the handler does — complete,
+    raise its own error — unless the handler itself issues a Stop instruction:
+    stopstepgroup = quiet end, stop/stoppipeline propagate as instructions *)
+Theorem C01_failure_routing : forall lib (rg : RG) (rp : RP) g gs names success fg s n m e s1,
+  names_of (g :: gs) = Some names -> fg <> "" ->
+  main_part lib rg rp names success s = (ORaise (RExn n m e), s1) ->
+  groups_body lib rg rp (g :: gs) success (Some fg) s =
+  match run_group lib rg rp fg true s1 with
+  | (ORaise (RSig SStopStepGroup), s2) => (OOk, s2)
+  | (ORaise (RSig sg), s2) => (ORaise (RSig sg), s2)
+  | (OUnsup, s2) => (OUnsup, s2)
+  | (_, s2) => (ORaise (RExn n m e), s2)
+  end.
+Proof. exact groups_body_error. Qed.
+Print Assumptions C01_failure_routing.
+
+Theorem C01_error_without_handler : forall lib (rg : RG) (rp : RP) g gs names success s n m e s1,
+  names_of (g :: gs) = Some names ->
+  main_part lib rg rp names success s = (ORaise (RExn n m e), s1) ->
+  groups_body lib rg rp (g :: gs) success None s = (ORaise (RExn n m e), s1).
+Proof. exact groups_body_error_no_handler. Qed.
+Print Assumptions C01_error_without_handler.
+
+(** no error escapes: the run returns normally with the final context *)
+Theorem C01_ok_returns_context : forall lib (rg : RG) (rp : RP) g gs names success failure s s1,
+  names_of (g :: gs) = Some names ->
+  main_part lib rg rp names success s = (OOk, s1) ->
+  groups_body lib rg rp (g :: gs) success failure s = (OOk, s1).
+Proof. exact groups_body_ok. Qed.
+Print Assumptions C01_ok_returns_context.
+
+(** default groups steps / on_success / on_failure only when none of the three is given *)
+Theorem C01_defaults : forall (rg : RG) groups su fa s,
+  run_pipeline_inner rg groups su fa s =
+  match rg (effective_groups groups)
+           (if defaulted groups su fa then Some "on_success" else su)
+           (if defaulted groups su fa then Some "on_failure" else fa) s with
+  | (ORaise (RSig SStopPipeline), s1) => (OOk, s1)
+  | r => r
+  end.
+Proof. exact run_pipeline_inner_unfold. Qed.
+Print Assumptions C01_defaults.
+
+Theorem C01_api_ok : forall fuel lib name d gs su fa j s1,
+  run_pipeline fuel lib name gs su fa (mkst d [] [] [] 0 j) = (OOk, s1) ->
+  api_run fuel lib name d gs su fa j = (OOk, s1).
+Proof. exact api_run_ok. Qed.
+Print Assumptions C01_api_ok.
+
+Theorem C01_api_error : forall fuel lib name d gs su fa j s1 n m e,
+  run_pipeline fuel lib name gs su fa (mkst d [] [] [] 0 j) = (ORaise (RExn n m e), s1) ->
+  api_run fuel lib name d gs su fa j = (ORaise (RExn n m e), s1).
+Proof. exact api_run_error. Qed.
+Print Assumptions C01_api_error.
+
+(** whole-program fact (induction on fuel): for EVERY library and fuel the probe trace and the
+    clock only grow, and the pipeline call-stack is what it was *)
+Theorem C01_history_monotone : forall fuel lib gs su fa, good (run_groups fuel lib gs su fa).
+Proof. exact good_run_groups. Qed.
+Print Assumptions C01_history_monotone.
+
+(** * Non-vacuity: a concrete pipeline through the whole interpreter *)
+Definition probe (tag : string) : step :=
+  mkstep "vprobe" BProbe (Some [(VStr "ptag", VStr tag)]) None None None
+         (VBool true) (VBool false) (VBool false) None (Some (1, 5)%Z).
+Definition boom : step :=
+  mkstep "vfail" BFail (Some [(VStr "vfail", VDict [(VStr "err", VStr "ValueError"); (VStr "msg", VStr "boom")])])
+         None None None (VBool true) (VBool false) (VBool false) None (Some (2, 5)%Z).
+Definition lib0 : library :=
+  [("main", [("steps", Some [probe "a"; boom; probe "never"]);
+             ("on_success", Some [probe "success"]);
+             ("on_failure", Some [probe "handler"; boom])])].
+
+Definition tags (r : R) : list val :=
+  map (fun e => match e with VList (t :: _) => t | _ => VNone end) (trace (snd r)).
+
+Example C01_nonvacuous :
+  let r := api_run EFUEL lib0 "main" [] None None None (1 # 4) in
+  tags r = [VStr "a"; VStr "handler"] /\
+  fst r = ORaise (RExn "ValueError" "boom" 0).
+Proof. vm_compute. split; reflexivity. Qed.
